@@ -59,6 +59,26 @@ impl COp {
         }
     }
 
+    /// Coarse kind used in signatures (the exact constants are in the replay's program).
+    fn kind(&self, t: Ty) -> String {
+        let f = if t.dt == Dt::F32 { "f32 " } else { "" };
+        match self {
+            COp::None => "none".into(),
+            COp::Shape => "Shape".into(),
+            COp::Gather { .. } => "Gather".into(),
+            COp::Slice { .. } => "Slice".into(),
+            COp::Concat { .. } => "Concat".into(),
+            COp::Arith { op, vec1, .. } => format!("{f}{op}{}", if *vec1 { " by [1]-shaped const" } else { "" }),
+            COp::Neg => "Neg".into(),
+            COp::Equal { .. } => "Equal".into(),
+            COp::WhereB { .. } => "Where(cur as condition)".into(),
+            COp::WhereC { .. } => "Where(const condition)".into(),
+            COp::Cast { to } => format!("Cast to {}", to.name()),
+            COp::Unsqueeze => "Unsqueeze".into(),
+            COp::Squeeze { .. } => "Squeeze".into(),
+        }
+    }
+
     /// Typing rule: result type, or None if the op does not apply.
     fn ty(&self, t: Ty) -> Option<Ty> {
         let num = t.dt == Dt::I64 || t.dt == Dt::F32;
@@ -477,8 +497,15 @@ pub fn templates(thorough: bool) -> Vec<Template> {
         if meta != Meta::Fixed {
             prog.runs = vec![vec![vec![2, 2, 3]], vec![vec![1, 2, 3]], vec![vec![3, 2, 3]]];
         }
-        let mut tags = vec![stag.to_string()];
-        tags.extend(ops.iter().map(|o| o.show()));
+        let _ = stag;
+        let start_class = match p[0] {
+            0 => "Shape(x) of a fixed-shape input",
+            1..=3 => "Shape(x) of an input with symbolic or undeclared dims",
+            4 | 7 => "i64 constant",
+            _ => "f32 constant",
+        };
+        let mut tags = vec![start_class.to_string()];
+        tags.extend(ops.iter().enumerate().map(|(i, o)| o.kind(tys[i])));
         tags.push(ttag.to_string());
         Some(Built { prog, tags })
     };
